@@ -1099,6 +1099,80 @@ GLUED = [('z = f((a)and(d))\n', 'body[0].value.args[0].values[0]'), ('z = f((a)a
          ('if x:\n    z = not(a)\n', 'body[0].body[0].value.operand'), ('if x:\n    return_ = (a)is(d)\n', 'body[0].body[0].value.left'), ('z = lambda:(a)if(c)else(d)\n', 'body[0].value.body.body')]
 
 
+NAME_INDEX_PROGS = [('a = 0\ndef f(): pass\ndef g():\n    def inner(): pass\nclass h: pass\nb = 1\nasync def i(): pass\n', 'exec', '', ['body']),
+                    ('class K:\n    """doc"""\n    x = 1\n    def f(self): pass\n    def g(self): pass\n    class h: pass\n    y = 2\n', 'exec', 'body[0]', ['body', '_body']),
+                    ('if a:\n    pass\nelse:\n    def f(): pass\n    z = 1\n    def g(): pass\n    def h(): pass\n', 'exec', 'body[0]', ['orelse']),
+                    ('try:\n    pass\nfinally:\n    p = 1\n    def f(): pass\n    class g: pass\n    def h(): pass\n', 'exec', 'body[0]', ['finalbody'])]
+
+
+def stage_name_index_views(ctx: Ctx):
+    """deterministic: NAME indexing (view['g']) of statement lists through every bounded view [a:b] and the full view: get / at() / assignment / deletion address exactly the definition
+    of that name among the elements of the view (the same node, and the same result as the operation by integer index on the base field); a name outside the view is refused"""
+    import fst
+    for src, mode, path, fields in NAME_INDEX_PROGS:
+        for field in fields:
+            def fresh():
+                r = fst.FST(src, mode)
+                b = eval('r.' + path) if path else r
+                return r, b, getattr(b, field)
+            _, b0, v0 = fresh()
+            n = len(v0)
+            names = {}
+            for i in range(n):
+                a = v0[i].a
+                if isinstance(a, (ast.FunctionDef, ast.AsyncFunctionDef, ast.ClassDef)):
+                    names[a.name] = i
+            for a_ in range(0, n + 1):
+                for b_ in list(range(a_, n + 1)) + [None]:
+                    if b_ is None and a_:
+                        continue
+                    for name in list(names) + ['inner', 'nope']:
+                        idx = names.get(name)
+                        lo, hi = (0, n) if b_ is None else (a_, b_)
+                        inside = idx is not None and lo <= idx < hi
+                        rec = {'src': src, 'base': path or 'root', 'field': field, 'view': 'full' if b_ is None else f'[{a_}:{b_}]', 'name': name}
+                        view_of = (lambda v: v) if b_ is None else (lambda v: v[a_:b_])
+                        ctx.tick(('name-index', src, field, a_, b_, name), 'name-index:' + ('inside' if inside else 'outside'))
+                        # get / at
+                        r, b, v = fresh()
+                        for how in ('getitem', 'at'):
+                            try:
+                                got = view_of(v)[name] if how == 'getitem' else view_of(v).at(name)
+                                err = None
+                            except Exception as e:
+                                got, err = None, e
+                            if inside:
+                                if err is not None or got is not v[idx]:
+                                    ctx.violation(f'name-index|{how}|wrong-node', 'name indexing through a view does not return the definition of that name in the view',
+                                                  {**rec, 'how': how, 'error': repr(err), 'got': None if got is None else got.src[:40], 'expected': v[idx].src[:40]})
+                            elif name != 'inner' and not (err is not None and isinstance(err, (IndexError, KeyError, ValueError))) and not (how == 'at' and got is None):
+                                ctx.violation(f'name-index|{how}|outside-accepted', 'name indexing through a view accepts a name that is not among the elements of the view',
+                                              {**rec, 'how': how, 'error': repr(err), 'got': None if got is None else got.src[:40]})
+                        if not inside:
+                            continue
+                        # assignment and deletion: same result as by integer index on the base field
+                        for how in ('setitem', 'delitem'):
+                            r1, b1, v1 = fresh()
+                            r2, b2, v2 = fresh()
+                            try:
+                                if how == 'setitem':
+                                    view_of(v1)[name] = 'x_new = 1'
+                                    v2[idx] = 'x_new = 1'
+                                else:
+                                    del view_of(v1)[name]
+                                    del v2[idx]
+                                err = None
+                            except Exception as e:
+                                err = e
+                            if err is not None or r1.src != r2.src:
+                                ctx.violation(f'name-index|{how}|wrong-position', 'assignment / deletion by name through a view does not change exactly the definition of that name',
+                                              {**rec, 'how': how, 'error': repr(err), 'result': r1.src, 'expected': r2.src})
+                            else:
+                                d = reparse_diffs(r1) if 'reparse_diffs' in globals() else []
+                                if d:
+                                    ctx.violation(f'name-index|{how}|tree', 'after assignment / deletion by name the tree differs from the parse of the source', {**rec, 'how': how, 'diffs': d[:4]})
+
+
 def stage_optional_and_glued(ctx: Ctx):
     """deterministic: (a) every optional single-node field next to a PARENTHESIZED required neighbour created / replaced / deleted through every entry point with one-line and multi-line
     code: exactly that field changes; (b) one operand that is parenthesized and glued to the keyword behind it replaced by code that spans lines: the new code does not merge with the keyword"""
@@ -1362,6 +1436,7 @@ def run(ctx: Ctx):
     run_guarded(ctx, stage_arguments_sweep)
     run_guarded(ctx, stage_optional_and_glued)
     run_guarded(ctx, stage_kind_change_and_view_reuse)
+    run_guarded(ctx, stage_name_index_views)
 
 
 def replay(path):
